@@ -679,8 +679,8 @@ INIT_NAMES = {"zero", "fill", "copy_from_slice", "clone_from_slice", "fill_with"
 ACCUMULATE_FRAG = ("_assign", "lsh_add_into", "rsh_add_into", "lsh_sub", "rsh_sub", "add_normal", "_add_scaled", "cmux_assign", "add_assign")
 
 
-def classify_use(fn, t, argi):
-    """how a call uses the taken object passed as argument argi: init | read | neutral | accumulate"""
+def classify_use(fn, t, argi, p=None, summaries=None, depth=0):
+    """how a call uses the taken object passed as argument argi: init | read | neutral | accumulate | moved"""
     d = fn.callee_def(t) or {}
     n = d.get("n", "")
     a = t["a"][argi]
@@ -691,11 +691,36 @@ def classify_use(fn, t, argi):
         return "neutral"
     if n in INIT_NAMES:
         return "init" if (mutable or argi == 0) else "read"
+    # library callee with a body above the HAL: use its own summary for this parameter
+    if p is not None and summaries is not None and (mutable or by_value) and d.get("u", "").startswith(("poulpy_core", "poulpy_bin_fhe", "poulpy_ckks")):
+        verdicts = set()
+        for x in p.targets(fn, t):
+            cf = p.fn(x)
+            if cf is None or not cf.uid.startswith(("poulpy_core", "poulpy_bin_fhe", "poulpy_ckks")):
+                continue
+            if argi + 1 > cf.argc:
+                continue
+            verdicts.add(param_summary(p, cf, argi + 1, summaries, depth + 1))
+        verdicts.discard(None)
+        if verdicts:
+            if "needs-init" in verdicts:
+                return "needs-init"
+            if verdicts == {"inits"}:
+                return "init"
+            if verdicts <= {"inits", "unused"}:
+                return "init" if "inits" in verdicts else "neutral"
     if by_value:
         return "moved"
     if not mutable:
+        if p is not None and summaries is not None and d.get("u", "").startswith(("poulpy_core", "poulpy_bin_fhe", "poulpy_ckks")):
+            vs = set()
+            for x in p.targets(fn, t):
+                cf = p.fn(x)
+                if cf is not None and cf.uid.startswith(("poulpy_core", "poulpy_bin_fhe", "poulpy_ckks")) and argi + 1 <= cf.argc:
+                    vs.add(param_summary(p, cf, argi + 1, summaries, depth + 1))
+            if vs and vs <= {"unused"}:
+                return "neutral"
         return "read"
-    # &mut argument: output operand of an overwrite-type operation iff it is the first &mut layout argument and the op is not accumulate/in-place
     first_mut = None
     for i, x in enumerate(t["a"]):
         if x[0] in ("c", "m"):
@@ -704,7 +729,6 @@ def classify_use(fn, t, argi):
                 first_mut = i
                 break
     if first_mut != argi:
-        # leading run of &mut layout operands (cnv_prepare_self(left, right, a, ..)) are all outputs
         run = []
         for i, x in enumerate(t["a"]):
             if i < (first_mut or 0):
@@ -715,25 +739,260 @@ def classify_use(fn, t, argi):
             else:
                 break
         if argi not in run:
-            return "read"  # later &mut operand (e.g. `a` of idft_apply_tmpa): treated as read-write
+            return "read"
     if any(fr in n for fr in ACCUMULATE_FRAG):
         return "accumulate"
     return "init"
 
 
+def iteration_feasible(f, g, path):
+    """False when, inside a `for v in lo..hi` loop, the first traversal of the body takes the `v != lo` arm of a comparison of the loop variable with
+    the range start, or a later traversal takes the `v == lo` arm."""
+    loops = g.loops()
+    if not loops:
+        return True
+    from . import wr
+    sym = None
+    flow = None
+    for L in loops:
+        h = L["header"]
+        occ = [i for i, b in enumerate(path) if b == h]
+        if not occ:
+            continue
+        # loop variable and range start
+        nx = None
+        for b in sorted(L["body"]):
+            t = f.blocks[b]["t"]
+            if t and t["k"] == "Call" and (f.callee_def(t) or {}).get("n") == "next" and g.innermost_loop(b) is L:
+                nx = (b, t)
+                break
+        if nx is None:
+            continue
+        if sym is None:
+            flow = Flow(f)
+            from .sym import Sym
+            sym = Sym(f, flow)
+        rg = wr.range_of_next(f, flow, sym, nx[1])
+        if rg is None:
+            continue
+        var = Poly.atom(("call", f.uid, nx[0], ("0",)))
+        lo = rg[0]
+        segs = occ + [len(path)]
+        for k in range(len(occ)):
+            seg = path[segs[k]:segs[k + 1]]
+            nxt = {seg[i]: seg[i + 1] for i in range(len(seg) - 1)}
+            for b in seg:
+                if b not in L["body"] or b not in nxt:
+                    continue
+                t = f.blocks[b]["t"]
+                if not t or t["k"] != "Switch" or len(t["ts"]) != 1:
+                    continue
+                for r in flow.op_roots(t["o"]):
+                    if r[0] != "bin":
+                        continue
+                    st = f.blocks[r[1]]["s"][r[2]][2]
+                    if st["op"] not in ("Eq", "Ne"):
+                        continue
+                    a, c = sym.operand(st["o"][0]), sym.operand(st["o"][1])
+                    if {a.key(), c.key()} != {var.key(), lo.key()}:
+                        continue
+                    truth = nxt[b] != t["ts"][0][1]  # switch on bool: value 0 -> false arm
+                    equal = truth if st["op"] == "Eq" else (not truth)
+                    if k == 0 and not equal:
+                        return False
+                    if k > 0 and equal:
+                        return False
+    return True
+
+
+_ALIAS = {}
+_FLOWS = {}
+
+
+def returns_view(p, cf):
+    """the callee only wraps its (single) reference argument into the value it returns: no call other than view accessors, no store through a pointer"""
+    if cf.uid in _ALIAS:
+        return _ALIAS[cf.uid]
+    ok = cf.argc >= 1
+    g = CFG(cf)
+    for b in sorted(g.reach):
+        for s in cf.blocks[b]["s"]:
+            if s[0] == "A" and "*" in s[1][1:]:
+                ok = False
+        t = cf.blocks[b]["t"]
+        if t and t["k"] == "Call" and (cf.callee_def(t) or {}).get("n") not in VIEW:
+            ok = False
+    if ok:
+        ok = "&" in cf.local_ty(0)["s"]
+    if ok:
+        fl = Flow(cf, transparent=VIEW)
+        seen, work, ok = set(), list(fl.roots(0)), False
+        while work:
+            r = work.pop()
+            if r in seen:
+                continue
+            seen.add(r)
+            if r[0] == "param":
+                ok = True
+            elif r[0] == "agg":
+                for o in cf.blocks[r[1]]["s"][r[2]][2]["o"]:
+                    if o[0] in ("c", "m"):
+                        work.extend(fl.op_roots(o))
+    _ALIAS[cf.uid] = ok
+    return ok
+
+
+def view_flow(p, f):
+    """origin slices of f in which view accessors and the repository's own view constructors are transparent"""
+    if f.uid in _FLOWS:
+        return _FLOWS[f.uid]
+    extra = set()
+    for bi, t in f.calls():
+        d = f.callee_def(t) or {}
+        n = d.get("n")
+        if not n or n in VIEW or not d.get("u", "").startswith(("poulpy_core", "poulpy_bin_fhe", "poulpy_ckks")):
+            continue
+        tg = [p.fn(x) for x in p.targets(f, t)]
+        if tg and all(c is not None and returns_view(p, c) for c in tg):
+            extra.add(n)
+    fl = Flow(f, transparent=tuple(VIEW) + tuple(sorted(extra)))
+    _FLOWS[f.uid] = (fl, extra)
+    return _FLOWS[f.uid]
+
+
+def walk_object(p, f, path, start_pos, is_obj, is_obj_place_root, summaries, depth=0):
+    """typestate of one object along one path, starting uninitialised.  Returns (verdict, where, what):
+    verdict: init | read | accumulate | needs-init | partial | moved | unused"""
+    flow_all, view_ctors = view_flow(p, f)
+    shrunk = False
+    state = "uninit"
+    for b in path[start_pos:]:
+        blk = f.blocks[b]
+        for s in blk["s"]:
+            if s[0] == "A" and s[2]["k"] == "Agg" and s[2].get("ak") == "Closure" and state in ("uninit", "tail-uninit"):
+                for k, o in enumerate(s[2]["o"]):
+                    if o[0] in ("c", "m") and is_obj(flow_all.op_roots(o)):
+                        cf = p.fn(f.duid(s[2]["clos"]))
+                        if cf is None:
+                            continue
+                        cflow = Flow(cf, transparent=VIEW)
+                        cg = CFG(cf)
+                        v = None
+                        for cb in sorted(cg.reach):
+                            for cs in cf.blocks[cb]["s"]:
+                                if cs[0] == "A" and "*" in cs[1][1:] and any(r[0] == "param" and r[1] == 1 and r[2][:1] == (str(k),) for r in cflow.roots(cs[1][0])):
+                                    v = v or ("init", cf.where(cs[3]), "store")
+                            if v:
+                                break
+                            ct = cf.blocks[cb]["t"]
+                            if ct and ct["k"] == "Call":
+                                for ai, ca in enumerate(ct["a"]):
+                                    if ca[0] in ("c", "m") and any(r[0] == "param" and r[1] == 1 and r[2][:1] == (str(k),) for r in cflow.op_roots(ca)):
+                                        c = classify_use(cf, ct, ai, p, summaries, depth)
+                                        if c != "neutral":
+                                            v = (c, cf.where(ct["l"]), (cf.callee_def(ct) or {}).get("n"))
+                                            break
+                            if v:
+                                break
+                        if v:
+                            if v[0] == "init":
+                                state = "init" if not shrunk else "init-partial"
+                                if state == "init":
+                                    return ("init", v[1], v[2])
+                            elif v[0] in ("read", "accumulate", "needs-init"):
+                                return (v[0] if state == "uninit" else "partial", v[1], v[2])
+            elif s[0] == "A" and "*" in s[1][1:]:
+                if is_obj(flow_all.roots(s[1][0])):
+                    fields = [x for x in s[1][1:] if isinstance(x, list) and x[0] == "f"]
+                    if not fields or any(isinstance(x, list) and x[0] == "i" for x in s[1][1:]):
+                        if state == "uninit" and not shrunk:
+                            return ("init", f.where(s[3]), "store")
+                        state = "init-partial" if shrunk else state
+        t = blk["t"]
+        if not t or t["k"] != "Call":
+            continue
+        for ai, a in enumerate(t["a"]):
+            if a[0] not in ("c", "m") or not is_obj(flow_all.op_roots(a)):
+                continue
+            nme = (f.callee_def(t) or {}).get("n")
+            if nme in view_ctors:
+                continue
+            if nme == "set_size":
+                if state == "uninit":
+                    shrunk = True
+                elif state == "init-partial":
+                    state = "tail-uninit"
+                break
+            c = classify_use(f, t, ai, p, summaries, depth)
+            if c == "neutral":
+                continue
+            where = f.where(t["l"])
+            if state == "uninit":
+                if c == "init":
+                    if shrunk:
+                        state = "init-partial"
+                        break
+                    return ("init", where, nme)
+                return (c, where, nme)
+            if state == "init-partial":
+                # further uses before any growth are fine
+                break
+            if state == "tail-uninit":
+                if c in ("read", "accumulate", "needs-init"):
+                    return ("partial", where, nme)
+                if c == "init":
+                    return ("init", where, nme)
+            break
+    if state in ("init-partial", "tail-uninit"):
+        return ("init", None, "partial-size initialisation, never grown before use")
+    return ("unused", None, None)
+
+
+def param_summary(p, cf, pi, summaries, depth=0):
+    """inits | needs-init | unused | None for parameter pi of cf treated as an uninitialised object"""
+    key = (cf.uid, pi)
+    if key in summaries:
+        return summaries[key]
+    summaries[key] = None  # cycle guard: unknown
+    if depth > 40:
+        return None
+    ty = cf.local_ty(pi)
+    g = CFG(cf)
+    paths = sc.returning_paths(cf, g, cap=1024, unroll=2) or sc.returning_paths(cf, g, cap=256)
+    if not paths:
+        return None
+    verdicts = set()
+    for path in paths:
+        if not iteration_feasible(cf, g, path):
+            continue
+        v = walk_object(p, cf, path, 0, lambda rr, pi=pi: any(r[0] == "param" and r[1] == pi for r in rr), None, summaries, depth)
+        verdicts.add(v[0])
+    if verdicts & {"read", "accumulate", "needs-init", "partial"}:
+        out = "needs-init"
+    elif verdicts <= {"unused"}:
+        out = "unused"
+    elif verdicts <= {"init", "unused", "moved"}:
+        out = "inits" if "unused" not in verdicts and "moved" not in verdicts else None
+    else:
+        out = None
+    summaries[key] = out
+    return out
+
+
 def sc3(p, res):
     n_takes = 0
+    summaries = {}
     fns = [f for f in p.lib_fns() if f.uid.startswith(LIB)]
     for f in sorted(fns, key=lambda x: x.uid):
         takes = [(bi, t) for bi, t in f.calls() if (f.callee_def(t) or {}).get("n", "").startswith("take_") and (f.callee_def(t) or {}).get("n") not in ("take_slice",)]
         if not takes:
             continue
         g = CFG(f)
-        paths = sc.returning_paths(f, g, cap=48)
+        paths = sc.returning_paths(f, g, cap=1024, unroll=2) or sc.returning_paths(f, g, cap=256)
         if paths is None:
             res.undec("SC-3", "%s: too many paths" % f.pretty)
             continue
-        flow_all = Flow(f, transparent=VIEW)
+        paths = [pth for pth in paths if iteration_feasible(f, g, pth)]
         for tb, tt in takes:
             tname = (f.callee_def(tt) or {}).get("n")
             if tname.endswith("_slice"):
@@ -745,72 +1004,21 @@ def sc3(p, res):
                 if tb not in path:
                     continue
                 pos = path.index(tb)
-                v = None
-                for b in path[pos + 1:]:
-                    blk = f.blocks[b]
-                    # closures capturing the object: look inside (first call that uses the capture)
-                    for s in blk["s"]:
-                        if v:
-                            break
-                        if s[0] == "A" and s[2]["k"] == "Agg" and s[2].get("ak") == "Closure":
-                            for k, o in enumerate(s[2]["o"]):
-                                if o[0] in ("c", "m") and any(r[0] == "call" and r[1] == tb and r[2][:1] == ("0",) for r in flow_all.op_roots(o)):
-                                    cf = p.fn(f.duid(s[2]["clos"]))
-                                    if cf is None:
-                                        continue
-                                    cflow = Flow(cf, transparent=VIEW)
-                                    cg = CFG(cf)
-                                    order = sorted(cg.reach)
-                                    for cb in order:
-                                        ct = cf.blocks[cb]["t"]
-                                        # direct stores through the capture
-                                        for cs in cf.blocks[cb]["s"]:
-                                            if cs[0] == "A" and "*" in cs[1][1:] and any(r[0] == "param" and r[1] == 1 and r[2][:1] == (str(k),) for r in cflow.roots(cs[1][0])):
-                                                v = v or ("init", cf.where(cs[3]), "store")
-                                        if v:
-                                            break
-                                        if ct and ct["k"] == "Call":
-                                            for ai, ca in enumerate(ct["a"]):
-                                                if ca[0] in ("c", "m") and any(r[0] == "param" and r[1] == 1 and r[2][:1] == (str(k),) for r in cflow.op_roots(ca)):
-                                                    c = classify_use(cf, ct, ai)
-                                                    if c not in ("neutral",):
-                                                        v = (c, cf.where(ct["l"]), (cf.callee_def(ct) or {}).get("n"))
-                                                        break
-                                        if v:
-                                            break
-                        elif s[0] == "A" and "*" in s[1][1:]:
-                            if any(r[0] == "call" and r[1] == tb and r[2][:1] == ("0",) for r in flow_all.roots(s[1][0])):
-                                # field store on the object itself (metadata) is neutral; a store through at_mut/raw_mut slices initialises
-                                fields = [x for x in s[1][1:] if isinstance(x, list) and x[0] == "f"]
-                                if not fields or any(isinstance(x, list) and x[0] == "i" for x in s[1][1:]):
-                                    v = ("init", f.where(s[3]), "store")
-                    if v:
-                        break
-                    t = blk["t"]
-                    if t and t["k"] == "Call":
-                        for ai, a in enumerate(t["a"]):
-                            if a[0] in ("c", "m") and any(r[0] == "call" and r[1] == tb and r[2][:1] == ("0",) for r in flow_all.op_roots(a)):
-                                c = classify_use(f, t, ai)
-                                if c == "neutral":
-                                    continue
-                                v = (c, f.where(t["l"]), (f.callee_def(t) or {}).get("n"))
-                                break
-                    if v:
-                        break
-                if v is None:
-                    verdicts.add("unused")
-                else:
-                    verdicts.add(v[0])
-                    if v[0] in ("read", "accumulate"):
-                        witness = v
+                v = walk_object(p, f, path, pos + 1, lambda rr, tb=tb: any(r[0] == "call" and r[1] == tb and r[2][:1] == ("0",) for r in rr), None, summaries)
+                verdicts.add(v[0])
+                if v[0] in ("read", "accumulate", "needs-init", "partial"):
+                    witness = v
             if witness:
+                how = {"read": "a read operand", "accumulate": "an accumulate/in-place operand", "needs-init": "an operand the callee reads or accumulates into before overwriting it (callee summary)",
+                       "partial": "an accumulate/read operand after it was only initialised at a reduced size (set_size) and then grown"}[witness[0]]
                 res.bad("SC-3", f.pretty, "uninit-read:%s@%s" % (tname, witness[2]),
-                        "%s: the object obtained with %s is first used by `%s` as %s operand on some path, before anything initialised it: the result depends on the previous contents of the scratch buffer"
-                        % (f.pretty, tname, witness[2], "a read" if witness[0] == "read" else "an accumulate/in-place"), site=witness[1])
+                        "%s: the object obtained with %s is first used by `%s` as %s on some path, before anything initialised it: the result depends on the previous contents of the scratch buffer"
+                        % (f.pretty, tname, witness[2], how), site=witness[1])
             elif verdicts <= {"init", "unused", "moved"}:
                 res.ok("SC-3", {"fn": f.pretty, "take": tname, "first_use": sorted(verdicts)} if n_takes % 25 == 1 else None)
             else:
                 res.undec("SC-3", "%s: %s first uses %s" % (f.pretty, tname, sorted(verdicts)))
+    res.extra["sc3_param_summaries"] = len(summaries)
     return n_takes
 
 
